@@ -1,6 +1,95 @@
-/- C08 — kernel-checked witnesses of known findings (filled in below) -/
-import ChibiVerif.Model.Layout
-import ChibiVerif.Spec.LayoutSpec
+/-
+C08 — kernel-checked witnesses (`decide`) of the known findings and of the latitude in `declspec`, on the model of the
+code as it is now; and of two defects already repaired in /repo (pre-fix loop bodies kept here).
+
+Known findings (known_findings.json), all inside `__attribute__((packed))`; codegen loads a bit-field with one access of
+its declared type, so contiguous packed bit-fields that straddle a unit cannot be represented without a larger change:
+* C08-packed-bitfield-straddle : `struct __attribute__((packed)) { char a; int b:30; int c:10; }`  chibicc 10/1, psABI/gcc 6/1
+* C08-packed-member-alignas    : `struct __attribute__((packed)) { char a; _Alignas(8) int b; }`   chibicc 5/1 (b at 1), gcc 16/8 (b at 8)
+* C08-packed-union-bitfield    : `union __attribute__((packed)) { int x:3; char c; }`              chibicc 4/1, gcc 1/1
+Each refutes `C08_layout_Statement`; `C08_layout_partial` holds outside the regions.
+-/
+import ChibiVerif.Props.C08
 
 namespace ChibiVerif.Findings.C08
+open ChibiVerif.Layout ChibiVerif.Gen.Declspec ChibiVerif.Spec.Layout ChibiVerif.Props.C08
+
+/-! ### declspec latitude -/
+
+/-- `signed signed` is accepted as `int` (`counter |= SIGNED` is idempotent) although C11 6.7.2p2 lists no multiset with
+    two `signed`; so is the empty specifier list (implicit int). -/
+theorem C08_finding_dup_sign : ¬ C08_specifiers_reject_Statement := by
+  intro h
+  have := h [.signed, .signed] (by decide)
+  revert this
+  decide
+
+theorem C08_dup_sign_witnesses :
+    declspecDecode [.signed, .signed] = .ok .int ∧ declspecDecode [.unsigned, .long, .unsigned] = .ok .ulong ∧
+    declspecDecode [] = .ok .int ∧ c11Type [.signed, .signed] = none ∧ c11Type [] = none := by decide
+
+/-! ### known findings -/
+
+def w_straddle : List SMem := [⟨1, 1, 0, none, true⟩, ⟨4, 4, 0, some 30, true⟩, ⟨4, 4, 0, some 10, true⟩]
+def w_alignas : List SMem := [⟨1, 1, 0, none, true⟩, ⟨4, 4, 8, none, true⟩]
+def w_ubf : List SMem := [⟨4, 4, 0, some 3, true⟩, ⟨1, 1, 0, none, true⟩]
+
+/-- C08-packed-bitfield-straddle: the model (= chibicc) gives 10/1 with `b` in the unit at byte 4, the spec (= gcc) 6/1
+    with `b` at bits 8..37 -/
+theorem C08_finding_packed_bitfield_straddle :
+    PackedWithBitfield true w_straddle = true ∧ (∀ m ∈ w_straddle, m.WF) ∧
+    structLayout true 1 (w_straddle.map SMem.toMem) = .ok ⟨10, 1, [⟨0, 0⟩, ⟨4, 0⟩, ⟨8, 0⟩]⟩ ∧
+    specStruct true none w_straddle = ⟨6, 1, [⟨0, 0, 0⟩, ⟨8, 0, 8⟩, ⟨38, 4, 6⟩]⟩ := by decide
+
+/-- the same region also contains a plain overlap: `struct __attribute__((packed)) { char a:3; char b; }` puts `b` at
+    offset 0, on top of `a` (the packed arm does `mem->offset = bits / 8` without rounding `bits` up to a byte) -/
+theorem C08_finding_packed_bitfield_overlap :
+    structLayout true 1 ([⟨1, 1, 0, some 3, true⟩, ⟨1, 1, 0, none, true⟩].map SMem.toMem) = .ok ⟨2, 1, [⟨0, 0⟩, ⟨0, 0⟩]⟩ ∧
+    specStruct true none [⟨1, 1, 0, some 3, true⟩, ⟨1, 1, 0, none, true⟩] = ⟨2, 1, [⟨0, 0, 0⟩, ⟨8, 1, 0⟩]⟩ := by decide
+
+/-- C08-packed-member-alignas -/
+theorem C08_finding_packed_member_alignas :
+    PackedWithMemberAlign true w_alignas = true ∧ (∀ m ∈ w_alignas, m.WF) ∧
+    structLayout true 1 (w_alignas.map SMem.toMem) = .ok ⟨5, 1, [⟨0, 0⟩, ⟨1, 0⟩]⟩ ∧
+    specStruct true none w_alignas = ⟨16, 8, [⟨0, 0, 0⟩, ⟨64, 8, 0⟩]⟩ := by decide
+
+/-- C08-packed-union-bitfield -/
+theorem C08_finding_packed_union_bitfield :
+    PackedUnionBitfield true w_ubf = true ∧ (∀ m ∈ w_ubf, m.WF) ∧
+    unionLayout true 1 (w_ubf.map SMem.toMem) = .ok ⟨4, 1, [⟨0, 0⟩, ⟨0, 0⟩]⟩ ∧
+    specUnion true none w_ubf = ⟨1, 1, [⟨0, 0, 0⟩, ⟨0, 0, 0⟩]⟩ := by decide
+
+/-- each witness refutes the full statement -/
+theorem C08_layout_Statement_false : ¬ C08_layout_Statement := by
+  intro h
+  have := (h true none w_straddle (by intro n hn; cases hn) (by decide)).1
+  revert this
+  decide
+
+/-! ### repaired defects (pre-fix code) -/
+
+/-- `struct_decl` before fix 7580095: unnamed bit-fields raised the alignment -/
+def stepAlignOld (packed : Bool) (align : Int) (m : Mem) : Int :=
+  if !packed && align < m.align then m.align else align
+
+/-- `struct { char a; int :3; }` was 4/4; psABI 3.1.2: unnamed bit-fields do not affect the alignment, 2/1 -/
+theorem C08_fixed_unnamed_bitfield_align :
+    let ms : List SMem := [⟨1, 1, 0, none, true⟩, ⟨4, 4, 0, some 3, false⟩]
+    (ms.map SMem.toMem).foldl (stepAlignOld false) 1 = 4 ∧
+    specStruct false none ms = ⟨2, 1, [⟨0, 0, 0⟩, ⟨8, 0, 8⟩]⟩ ∧
+    structLayout false 1 (ms.map SMem.toMem) = .ok ⟨2, 1, [⟨0, 0⟩, ⟨0, 8⟩]⟩ := by decide
+
+/-- `union_decl` before the packed fix: `if (ty->align < mem->align) ty->align = mem->align;` ignored `is_packed` -/
+def unionStepOld (size align : Int) (m : Mem) : Int × Int :=
+  match m.bitWidth, m.named with
+  | some w, false => (if size < Int.tdiv (w + 7) 8 then Int.tdiv (w + 7) 8 else size, align)
+  | _, _ => (if size < m.size then m.size else size, if align < m.align then m.align else align)
+
+/-- `union __attribute__((packed)) { int a; char b; }` was 4/4; gcc 4/1 -/
+theorem C08_fixed_packed_union :
+    let ms : List SMem := [⟨4, 4, 0, none, true⟩, ⟨1, 1, 0, none, true⟩]
+    (ms.map SMem.toMem).foldl (fun s m => unionStepOld s.1 s.2 m) (0, 1) = (4, 4) ∧
+    specUnion true none ms = ⟨4, 1, [⟨0, 0, 0⟩, ⟨0, 0, 0⟩]⟩ ∧
+    unionLayout true 1 (ms.map SMem.toMem) = .ok ⟨4, 1, [⟨0, 0⟩, ⟨0, 0⟩]⟩ := by decide
+
 end ChibiVerif.Findings.C08
